@@ -41,17 +41,18 @@ Proof.
   intro Ho. rewrite Ho in H4. destruct (i_alias it); [discriminate | reflexivity].
 Qed.
 
-Lemma render_has_moved moved it :
-  in_domain moved = true -> In it moved -> In it (items_of (render moved)).
+Lemma render_has l it :
+  In it l -> is_rel (i_mod it) = false -> (i_obj it = None -> i_alias it = None) ->
+  In it (items_of (render l)).
 Proof.
-  intros Hd Hin. destruct (in_domain_item moved it Hd Hin) as [_ [Hrel Hal]].
+  intros Hin Hrel Hal.
   unfold items_of, render. rewrite !flat_map_app, !in_app_iff.
   destruct it as [md o al]. simpl in *. destruct o as [o|].
   - (* from md import o [as al] *)
     right. right. apply in_flat_map.
-    exists (IFrom md (nsort (from_names md moved))). split.
+    exists (IFrom md (nsort (from_names md l))). split.
     + apply in_map_iff. exists md. split; [reflexivity|]. apply in_app_iff.
-      set (am := ssort (from_mods true moved)).
+      set (am := ssort (from_mods true l)).
       destruct al as [a|].
       * left. apply ssort_In. unfold from_mods. apply in_flat_map.
         exists (Item md (Some o) (Some a)). split; [assumption | simpl; now left].
@@ -70,14 +71,73 @@ Proof.
     exists (Item md None None). split; [assumption | simpl; now left].
 Qed.
 
-(* clause 2a: every moved item sits under `if TYPE_CHECKING:` and not at run-time level *)
+(* ------------------------------------------------------------ the symbol mapping holds only items of its imports *)
+Lemma dict_set_In k v d x : In x (map snd (dict_set k v d)) -> x = v \/ In x (map snd d).
+Proof.
+  induction d as [|[k' v'] r IH]; simpl; [intuition|].
+  destruct (String.eqb k k'); simpl; intuition.
+Qed.
+
+Lemma set_items_In its : forall d x, In x (map snd (set_items d its)) -> In x (map snd d) \/ In x its.
+Proof.
+  unfold set_items. induction its as [|it r IH]; intros d x H; simpl in *; [now left|].
+  apply IH in H as [H | H]; [|right; now right].
+  apply dict_set_In in H as [-> | H]; [right; now left | now left].
+Qed.
+
+Lemma gather_go_In is : forall stars d x,
+  In x (map snd (gather_go stars d is)) -> In x (map snd d) \/ In x (items_of is).
+Proof.
+  unfold items_of. induction is as [|i r IH]; intros stars d x H; simpl in *; [now left|].
+  rewrite in_app_iff. destruct i as [ns | md ns | md].
+  - apply IH in H as [H | H]; [|tauto]. apply set_items_In in H. tauto.
+  - destruct (is_rel md) eqn:Rel.
+    + apply IH in H. tauto.
+    + destruct (has_plain ns && smemb md stars).
+      * apply IH in H. tauto.
+      * apply IH in H as [H | H]; [|tauto]. apply set_items_In in H.
+        simpl imp_items. rewrite Rel. tauto.
+  - apply IH in H. tauto.
+Qed.
+
+Lemma already_confined_tc m it : In it (already_confined m) -> In it (tc_items m).
+Proof.
+  unfold already_confined. intro H. apply gather_go_In in H as [[] | H].
+  unfold items_of, tc_block_imps in H. unfold tc_items.
+  apply in_flat_map in H as [i [Hi Hit]]. apply in_flat_map in Hi as [s [Hs Hi]].
+  apply in_flat_map. exists i. split; [|exact Hit]. apply in_flat_map. exists s. split; [exact Hs|].
+  destruct s; simpl in *; try contradiction. exact Hi.
+Qed.
+
+Lemma tc_items_insert_go_keeps x m it :
+  In it (tc_items m) -> In it (tc_items (insert_after_last_go x m)).
+Proof.
+  induction m as [|s r IH]; simpl; [unfold tc_items; simpl; tauto|].
+  destruct (existsb is_simp r); rewrite !tc_items_cons, !in_app_iff; [|tauto].
+  intros [H | H]; [now left | right; now apply IH].
+Qed.
+
+Lemma tc_items_insert_block_keeps l m it : In it (tc_items m) -> In it (tc_items (insert_block l m)).
+Proof.
+  intro H. unfold insert_block. destruct l; [exact H|]. unfold insert_after_last.
+  destruct (existsb is_simp m); [now apply tc_items_insert_go_keeps|].
+  rewrite tc_items_cons, in_app_iff. now right.
+Qed.
+
+(* clause 2: every moved item sits under `if TYPE_CHECKING:` - in the new block, or in a block that was already there -
+   and in no module-level import statement *)
 Theorem confine_moved_under_tc moved applied it :
   in_domain moved = true -> In it moved ->
-  In it (tc_items (confine_with moved applied)) /\ ~ In it (run_items (confine_with moved applied)).
+  In it (tc_items (confine_with moved applied)) /\ ~ In it (top_items (confine_with moved applied)).
 Proof.
-  intros Hd Hin. split.
-  - unfold confine_with. apply tc_items_insert_block; [assumption | now apply render_has_moved].
-  - now apply confine_moved_not_runtime.
+  intros Hd Hin. destruct (in_domain_item moved it Hd Hin) as [_ [Hrel Hal]]. split.
+  - unfold confine_with. set (t := remove moved (add_tc applied)).
+    destruct (memb it (already_confined t)) eqn:E.
+    + apply tc_items_insert_block_keeps. apply already_confined_tc. now apply memb_In.
+    + assert (L : In it (to_block moved t)).
+      { unfold to_block. apply filter_In. split; [assumption | now rewrite E]. }
+      apply tc_items_insert_block; [exact L | now apply render_has].
+  - now apply confine_moved_not_toplevel.
 Qed.
 
 Lemma in_domain_no_future moved :
